@@ -276,7 +276,7 @@ func buildShadow(o *world.Obs, ignoreLoc map[int]bool) *Shadow {
 			continue
 		}
 		// full reply
-		verdict, why := model.Storability(c.Method, c.Header, c.Status, c.RespHdr, c.BodyFails())
+		verdict, why := model.Storability(c.Method, c.Header, c.Status, c.RespHdr, c.BodyFails() || c.Short > 0)
 		// entries that the request selects are replaced (or left in an unknown state)
 		var validated *ShadowEntry
 		if inm := c.Header.Get("If-None-Match"); inm != "" {
